@@ -434,24 +434,26 @@ def corpus_schedule(tier, seed, rnd):
     # fixed n_steps given together with adaptive (n_steps ignored by the adaptive controller)
     for w in (0.05, 0.5):
         specs.append(dict(adaptive=True, n_steps=3, width=w, N=8, seed=seeds[0]))
+    # every sampler class has its own sample() that passes the schedule options on: each option is
+    # exercised through each class (and the array namespaces), in the quick tier as well
+    extra = []
+    for c in specs[::3]:
+        for smp, ns in (("emcee_smc", "numpy"), ("minipcn_smc", "torch"), ("minipcn_smc", "jax")):
+            e = dict(c, sampler=smp, ns=ns)
+            if smp == "emcee_smc":
+                e.pop("min_step", None); e.pop("max_n_steps", None)
+            # domain: log-densities must be representable to ~1e-3 in the requested precision; in
+            # float32 a likelihood of width 1e-4 gives log-values of 1e8 with an error of +-8, i.e.
+            # numerical noise (numpy then refuses the resampling probabilities).  Extremely peaked
+            # likelihoods are exercised in float64, float32 down to width 0.05.
+            if ns != "numpy":
+                e["dtype"] = "float64" if (c["width"] < 0.05 or len(extra) % 2 == 0) else "float32"
+            extra.append(e)
+    rnd.shuffle(extra)
     if tier == "quick":
         rnd.shuffle(specs)
-        specs = specs[:900]
+        specs = specs[:800] + extra[:400]
     else:
-        extra = []
-        for c in specs[::3]:
-            for smp, ns in (("emcee_smc", "numpy"), ("minipcn_smc", "torch"), ("minipcn_smc", "jax")):
-                e = dict(c, sampler=smp, ns=ns)
-                if smp == "emcee_smc":
-                    e.pop("min_step", None); e.pop("max_n_steps", None)
-                # domain: log-densities must be representable to ~1e-3 in the requested precision; in
-                # float32 a likelihood of width 1e-4 gives log-values of 1e8 with an error of +-8, i.e.
-                # numerical noise (numpy then refuses the resampling probabilities).  Extremely peaked
-                # likelihoods are exercised in float64, float32 down to width 0.05.
-                if ns != "numpy":
-                    e["dtype"] = "float64" if (c["width"] < 0.05 or len(extra) % 2 == 0) else "float32"
-                extra.append(e)
-        rnd.shuffle(extra)
         specs += extra[:3000]
     return [_mk(i, "single", {"cfg": c}) for i, c in enumerate(specs)]
 
